@@ -226,6 +226,11 @@ def run_cast_case(case, ctx):
                 src = two_term(a)
                 check_terms(ctx, facts, case, src.astype(T), {(0,): cast(a, T), (1,): cast(a, T)}, T,
                             "astype(T)")
+                for extra in ({"copy": False}, {"copy": True}, {"order": "C"}, {"casting": "unsafe"}):
+                    ctx.count("astype_keywords")
+                    if not check_terms(ctx, facts, case, src.astype(T, **extra),
+                                       {(0,): cast(a, T), (1,): cast(a, T)}, T, f"astype(T, **{extra})"):
+                        break
                 # ... and of arrays numpy derives from it through ndarray methods
                 import copy as _copy
                 for label, derive, on in (
